@@ -25,8 +25,8 @@ EXTENDS Electric, Json
 
 CONSTANTS Depth, NRandom, WalkLen, AddIds, RandAddIds, MaxGen, MaxModes
 
-VARIABLES hist, live, gens
-gvars == <<st, now, hist, live, gens>>
+VARIABLES hist, live, gens, ini   \* ini: the configuration the model is constructed with
+gvars == <<st, now, hist, live, gens, ini>>
 
 GId(k) == "g" \o ToString(k)
 NextGens(g, op, r) == IF op.op = "Create" /\ r.err = "OK" THEN g + 1 ELSE g
@@ -49,9 +49,19 @@ ExhOps(g) ==
   \cup { MkOp("Change", i, FALSE, 0, "nil", FALSE, NoStart, 1) : i \in RefIds(g) }
   \cup { MkOp("Clear", "", FALSE, 0, "nil", FALSE, NoStart, 1) }
 
-ExhInit == st = InitState /\ now = 0 /\ hist = <<>> /\ live = TRUE /\ gens = 0
+\* initial configurations (constructor options WithInitialMode / WithInitialActiveMode) of the
+\* exhaustive generator: the empty model to the full Depth, three constructed ones two steps less
+IMode(id, n) == [id |-> id, normal |-> n, title |-> 0, start |-> NoStart]
+IAct(id, n) == [id |-> id, normal |-> n, title |-> 0, start |-> NoStart]
+ExhInits == { EmptyInit,
+              [modes |-> <<IMode("a", TRUE), IMode("b", FALSE)>>, active |-> IAct("a", TRUE)],
+              [modes |-> <<IMode("a", TRUE), IMode("b", FALSE)>>, active |-> Dummy],
+              [modes |-> <<IMode("a", FALSE), IMode("b", TRUE)>>, active |-> IAct("a", FALSE)] }
+DepthOf(i) == IF i = EmptyInit THEN Depth ELSE Depth - 2
+ExhInit == /\ ini \in ExhInits /\ st = StateFrom(ini)
+           /\ now = 0 /\ hist = <<>> /\ live = TRUE /\ gens = 0
 ExhNext ==
-  /\ live /\ Len(hist) < Depth
+  /\ live /\ Len(hist) < DepthOf(ini) /\ UNCHANGED ini
   /\ \E op \in ExhOps(gens) :
        LET r == Step(st, now + op.dt, op, GId(gens + 1)) IN
        /\ st' = r.post /\ now' = now + op.dt /\ hist' = Append(hist, op)
@@ -90,11 +100,28 @@ Walk(z, s, t, g, n) ==
        IN <<op>> \o Walk(z, r.post, t + op.dt, NextGens(g, op, r), n - 1)
 
 \* (gens = -1 marks a finished random walk: no successors, every step is logged)
+\* 40 % of the walks start from a constructed model: up to 3 initial modes, at most one normal, now and
+\* then one that carries a start_time, the active mode blank or a copy of one of them
+RandIni(z) ==
+  IF R(1..10) > 4 THEN EmptyInit
+  ELSE LET ids == R({ S \in SUBSET RandAddIds : Cardinality(S) \in 1..3 })
+           nrm == IF R(1..3) = 1 THEN "" ELSE R(ids)
+           RECURSIVE Build(_)
+           Build(S) == IF S = {} THEN <<>>
+                       ELSE LET i == CHOOSE i \in S : TRUE
+                            IN <<[id |-> i, normal |-> i = nrm, title |-> R(Titles),
+                                  start |-> IF R(1..5) = 1 THEN 0 ELSE NoStart]>> \o Build(S \ {i})
+           ms == Build(ids)
+           act == IF R(1..3) = 1 THEN Dummy
+                  ELSE LET m == ms[R(1..Len(ms))]
+                       IN [id |-> m.id, normal |-> m.normal, title |-> m.title, start |-> IF R(1..4) = 1 THEN 0 ELSE NoStart]
+       IN [modes |-> ms, active |-> act]
+RandProg(z) == LET i == RandIni(z) IN [ini |-> i, ops |-> Walk(z, StateFrom(i), 0, 0, WalkLen)]
 RandInit == /\ st = InitState /\ now = 0 /\ live = FALSE /\ gens = -1
-            /\ hist \in { Walk(k, InitState, 0, 0, WalkLen) : k \in 1..NRandom }
+            /\ \E prog \in { RandProg(k) : k \in 1..NRandom } : ini = prog.ini /\ hist = prog.ops
 RandNext == UNCHANGED gvars
 
 \* both generators in one TLC run (ElectricGenBoth.cfg)
 BothInit == ExhInit \/ RandInit
-EmitCase == Len(hist) > 0 => PrintT("CASE " \o ToJson([ops |-> hist, lastOnly |-> gens >= 0]))
+EmitCase == Len(hist) > 0 => PrintT("CASE " \o ToJson([init |-> ini, ops |-> hist, lastOnly |-> gens >= 0]))
 =============================================================================
